@@ -448,7 +448,9 @@ pub fn run_model_layer(ctx: &Ctx, property: &'static str, specs: &[crate::gramsw
         }
         if let Some(rf) = crate::gramsweep::reference_or_note(case, acc) {
             acc.inc(&format!("class: {}", rf.class.name()));
-            model_case(case, &gen, &rf, property, acc, depth_for(case.g.t, deep));
+            // (the scaled families say how deep their interesting sentences are)
+            let depth = case.pres.names.get("depth").and_then(|d| d.parse().ok()).unwrap_or_else(|| depth_for(case.g.t, deep));
+            model_case(case, &gen, &rf, property, acc, depth);
         }
     })
 }
